@@ -36,9 +36,9 @@ ASSUMPTIONS = [
     "the source dataset is not written during the run",
 ]
 EXHAUSTIVE = {"thorough": True}
-COPY_KINDS = ["identity", "touch", "rebuild", "httpecho", "httpctx"]     # content-preserving transforms of the copy mode (all KIdentity in the model)
+COPY_KINDS = ["identity", "touch", "rebuild", "httpecho", "httpctx", "httpflaky"]     # content-preserving transforms of the copy mode (all KIdentity in the model)
 KINDS = ["identity", "dropodd", "dup", "create", "droplow", "pushin"]
-KIND_COQ = {"touch": "KIdentity", "rebuild": "KIdentity", "httpecho": "KIdentity", "httpctx": "KIdentity", "identity": "KIdentity", "dropodd": "KDropOdd", "dup": "KDup", "create": "KCreate", "droplow": "KDropLow", "pushin": "KPushIn"}
+KIND_COQ = {"httpflaky": "KIdentity", "touch": "KIdentity", "rebuild": "KIdentity", "httpecho": "KIdentity", "httpctx": "KIdentity", "identity": "KIdentity", "dropodd": "KDropOdd", "dup": "KDup", "create": "KCreate", "droplow": "KDropLow", "pushin": "KPushIn"}
 
 
 def mk(n, batch, par, kind="identity", full=False, wrap=True):
@@ -136,7 +136,7 @@ def witness_cases():
     f = lambda v: {"k": "f64", "v": v}
     i = lambda v: {"k": "int64", "v": v}
     js = lambda a, b: {"n": 0, "batch": 1, "par": 1, "kind": "identity", "full": False, "wrap": False, "json": [a, b]}
-    return [mkcopy(11, 4, 1, "httpecho"), mkcopy(11, 4, 1, "httpctx"), js(f(22000), i(22)), js({"k": "slice", "v": [f(1000), {"k": "slice", "v": [f(2000), f(2500)]}]},
+    return [mkcopy(9, 3, 1, "httpflaky"), mkcopy(11, 4, 1, "httpecho"), mkcopy(11, 4, 1, "httpctx"), js(f(22000), i(22)), js({"k": "slice", "v": [f(1000), {"k": "slice", "v": [f(2000), f(2500)]}]},
                                     {"k": "slice", "v": [i(1), {"k": "slice", "v": [i(2), f(2500)]}]}),
             js({"k": "uint16", "v": 7}, {"k": "uint16", "v": 7}), js({"k": "strslice", "v": [1, 2]}, {"k": "strslice", "v": [1, 2]}),
             js({"k": "map", "v": [[1, i(1)], [2, f(1500)]]}, {"k": "map", "v": [[1, i(1)], [2, f(1500)]]}),
@@ -226,14 +226,15 @@ def term(c, o):
     zl = lambda l: vlib.coq_list([vlib.zlit(x) for x in l])
     zll = lambda ll: vlib.coq_list([zl(l) for l in ll])
     return ("{| c_n := %d; c_batch := %d; c_par := %d; c_kind := %s; c_full := %s; c_wrap := %s; "
-            "o_outcome := %d%%N; o_seen := %s; o_sink := %s; o_token := %d; o_rerun := %s; o_copy := %s; c_nested := %s |}" % (
+            "o_outcome := %d%%N; o_seen := %s; o_sink := %s; o_token := %d; o_rerun := %s; o_copy := %s; c_nested := %s; c_ffail := %s |}" % (
                 c["n"], c["batch"], c["par"], KIND_COQ[c["kind"]], vlib.coq_bool(c["full"]), vlib.coq_bool(c["wrap"]),
                 OUTCOME.get(o["outcome"], 9), zll(seen), zll(o.get("sink") or []), tok, vlib.zlit(o.get("rerun", -1)),
                 ("Some (%s, %s, %s, %s, %s)" % (vlib.coq_bool(bool(o.get("dst_eq"))), vlib.zlit(o.get("dst_changes", -1)),
                                                 vlib.zlit(o.get("ref_changes", -1)), vlib.zlit(o.get("re_changes", -1)),
                                                 vlib.zlit(o.get("full_changes", -1)))) if c.get("copy") else "None",
                 # the driver's payload gives entity i a nested entity iff i % 6 is 3 or 5 (harness/C10/zz_verif_c10copy.go)
-                str(sum(1 for i in range(c["n"]) if i % 6 in (3, 5)) if c.get("copy") and c["kind"] == "httpctx" else 0))
+                str(sum(1 for i in range(c["n"]) if i % 6 in (3, 5)) if c.get("copy") and c["kind"] == "httpctx" else 0),
+                vlib.coq_bool(bool(c.get("copy")) and c["kind"] == "httpflaky"))
             ).replace(" |}", "; o_json := %s |}" % (
                 ("Some (%s, %s, %s, %s)" % (gval_term(c["json"][0]), gval_term(c["json"][1]),
                                             jval_term((o.get("json_out") or [{}, {}])[0]), jval_term((o.get("json_out") or [{}, {}])[1])))
